@@ -246,7 +246,7 @@ CHECKS = [
      "note": "Bounds: non-parametric amplitude (power parametrisation, with / without flexibility and asperity), grids 4, 6, 8, 2x4, 3x3, 4x4 (4x6 thorough), products of two spaces, concrete distances and prior parameters, both Hartley conventions for the agreement. exp applications whose arguments agree up to 1e-9 in every coefficient are identified (differently rounded float constants of the two code bases); comparisons are relative 1e-9. Matern amplitudes, the amplitude parametrisation, HEALPix spaces, total_N > 0 and correlated_fields_simple are outside the claim.",
      "text": "Bounded symbolic verification: for ALL hyperparameter latents the classic and the JAX model return the same offset and the same "
              "response to every harmonic excitation; the expected spatial variance about the spatial mean equals total_fluctuation^2 and, for "
-             "product spectra, the slice / average variances equal slice_fluctuation^2 / average_fluctuation^2 on every grid of the bound.",
+             "product spectra, the slice / average variances equal slice_fluctuation^2 / average_fluctuation^2 on every grid of the bound (non-parametric amplitude).  Known finding: the classic Matern amplitude's total_fluctuation is not the field's standard deviation.",
      "design_ref": "DESIGN.md 4/C28"},
     {"property_id": "C24", "engine": "B", "category": "other", "technique": "crash-point exploration of the real nifty.re optimize_kl: the index of the file-system mutation at which the run is killed and the kill variant are z3 integers concretised by solver-decided forking; each path executes the real run, kills it (vf.crash), restarts it with resume=True and compares samples and optimisation state with the uninterrupted run",
      "note": "Concrete float64 runs (the solver explores the crash-point space only). Bounds: 3 iterations, 2 keys, sample modes linear_resample / linear_sample (quick), nonlinear_resample / nonlinear_update (thorough), jit off, one crash per history.",
